@@ -478,6 +478,17 @@ theorem same_element_swap {nmol ms : Nat} {sp : Nat → Nat} {p q : Nat}
       (pairList nmol ms sp close) :=
   same_element_relabel (swap_relabel hp hq hmol hsp) close hsym
 
+/-! ## batches given as lists of rows -/
+
+/-- The list-of-rows entry point `forward` is `run` on the flattened species; molecule `m` computed
+    alone through `forward [row m]` is exactly the `run 1 ms (molSp …)` of the theorems above. -/
+theorem forward_is_run (species : List (List Nat)) (ms : Nat) (hrows : ∀ r ∈ species, r.length = ms)
+    (hne : species ≠ []) (close : Nat → Nat → Bool) :
+    forward species close = run species.length ms (spOf species) close ∧
+    ∀ m (hm : m < species.length) (close0 : Nat → Nat → Bool),
+      forward [species[m]] close0 = run 1 ms (molSp ms (spOf species) m) close0 :=
+  ⟨forward_batch species ms hrows hne close, fun m hm close0 => forward_row species ms hrows m hm close0⟩
+
 /-! ## non-vacuity: a concrete padded 2-molecule batch -/
 
 /-- H2O (O,H,H + 1 padding slot) and CH4-fragment (C,H,H,H) -/
@@ -509,6 +520,18 @@ example : Grown 2 4 2 (spOf exSpecies) (spOf exSpecies') exClose exClose' := by
 example : (forward exSpecies' exClose').idxi = (forward exSpecies exClose).idxi ∧
     (forward exSpecies' exClose').mask = (forward exSpecies exClose).mask.map (reblock 4 6) := by
   decide
+
+/-- garbage in the closeness entries of the padding slot 3 changes nothing -/
+example : run 2 4 (spOf exSpecies) exClose =
+    run 2 4 (spOf exSpecies) (fun i j => (exClose i j != (i == 3)) != (j == 3)) := by
+  apply padding_independent_close
+  have h : ∀ j, j < 2 * 4 → ∀ i, i < j → i / 4 = j / 4 → 0 < spOf exSpecies i → 0 < spOf exSpecies j →
+      exClose i j = ((exClose i j != (i == 3)) != (j == 3)) := by decide
+  exact fun i j h1 h2 => h j h2 i h1
+
+/-- water: 1 heavy atom, 2 hydrogens, `size = 4*molsize = 16 ≥ 4 + 4*2` -/
+example : Pack.pack (0 : Nat) 4 2 (Pack.unpack 0 4 2 16 (fun i j => 10 * i + j + 1)) 5 4 = 55 :=
+  pack_unpack 0 4 2 16 (by decide) _ 5 4 (by decide) (by decide)
 
 /-- the two hydrogens of the water molecule (slots 1, 2) can be swapped: `Relabel` is satisfiable -/
 example : Relabel 2 4 (spOf exSpecies) (swapIdx 1 2) (swapIdx 1 2) :=
